@@ -121,16 +121,17 @@ func maxInt(a, b int) int {
 	return b
 }
 
-func c18random(c *ctx, k int) c18trace {
+// forced: "" random | "long-stop" | "long-cancel": a long first start delay ended by Stop / cancel
+func c18random(c *ctx, k int, forced string) c18trace {
 	ns := 1 + c.rng.Intn(3)
 	var sch []raterun.Schedule
-	tr := c18trace{Name: fmt.Sprintf("random-%d", k)}
+	tr := c18trace{Name: fmt.Sprintf("random-%d%s", k, forced)}
 	for i := 0; i < ns; i++ {
 		d := time.Duration(c.rng.Intn(70)) * time.Millisecond
 		if i == 0 && c.rng.Intn(3) > 0 {
 			d = 0
 		}
-		if i == 0 && c.rng.Intn(8) == 0 {
+		if i == 0 && (c.rng.Intn(8) == 0 || forced != "") {
 			d = 4 * time.Second // a long first start delay: Stop/cancel must still end the goroutine promptly
 		}
 		f := time.Duration(2+c.rng.Intn(14)) * time.Millisecond
@@ -165,6 +166,9 @@ func c18random(c *ctx, k int) c18trace {
 	rec.add(rEv{K: "start", C: rec.us()})
 	rn.Start(ctx)
 	nops := 1 + c.rng.Intn(4)
+	if forced != "" {
+		nops = 0 // still inside the first start delay when Stop / cancel arrives
+	}
 	for i := 0; i < nops; i++ {
 		time.Sleep(time.Duration(5+c.rng.Intn(90)) * time.Millisecond)
 		if c.rng.Intn(2) == 0 {
@@ -173,10 +177,18 @@ func c18random(c *ctx, k int) c18trace {
 		}
 	}
 	time.Sleep(time.Duration(c.rng.Intn(60)) * time.Millisecond)
-	if c.rng.Intn(2) == 0 {
+	if (c.rng.Intn(2) == 0 && forced == "") || forced == "long-stop" {
 		rec.add(rEv{K: "stopcall", C: rec.us()})
-		rn.Stop()
-		rec.add(rEv{K: "stopret", C: rec.us()})
+		stopped := make(chan struct{})
+		go func() { rn.Stop(); close(stopped) }()
+		select {
+		case <-stopped:
+			rec.add(rEv{K: "stopret", C: rec.us()})
+		case <-time.After(1500 * time.Millisecond):
+			rec.add(rEv{K: "stophang", C: rec.us()})
+			<-stopped
+			rec.add(rEv{K: "stopret", C: rec.us()})
+		}
 	} else {
 		rec.add(rEv{K: "cancel", C: rec.us()})
 		cancel()
@@ -212,7 +224,13 @@ func init() {
 			func(k int) {
 				defer wg.Done()
 				defer func() { <-sem }()
-				t := c18random(c, k)
+				forced := ""
+				if k == 0 {
+					forced = "long-stop"
+				} else if k == 1 {
+					forced = "long-cancel"
+				}
+				t := c18random(c, k, forced)
 				mu.Lock()
 				w.write(t)
 				mu.Unlock()
